@@ -55,14 +55,6 @@ open Comdex.Accrual
 /-- reciprocal of the quasi-multiplicativity slack of `math.Pow` used by the monitor (ε = 2^-40) -/
 def monE : Nat := 2 ^ 40
 
-/-- explicit error term of `C18.more_frequent_accrual_not_more`, in raw 10^-18 units -/
-def subaddErr (a c : Int) : Rat :=
-  let ar : Rat := (a : Rat) / (U : Rat)
-  let cr : Rat := (c : Rat) / (U : Rat)
-  let eps : Rat := 1 / (monE : Rat)
-  let d : Rat := 1 / ((2 : Rat) ^ 51)
-  (P18 : Rat) * ar * (cr * eps * (1 + d) + (cr - 1) * d) + 2
-
 def subaddMon (es : List Ev) (e : Ev) : List String :=
   let all := e :: es
   -- triples (x, y, z) with the new evaluation among them, same principal and rate, x.s + y.s = z.s
@@ -72,7 +64,7 @@ def subaddMon (es : List Ev) (e : Ev) : List String :=
        x.n == y.n && y.n == z.n && x.r == y.r && y.r == z.r && x.s + y.s == z.s
     then some (x, y, z) else none
   trip.filterMap fun (x, y, z) =>
-    if ((x.out + y.out : Int) : Rat) ≤ (z.out : Rat) + subaddErr (aF z.n) z.pw then none else some "subadditive"
+    if ((x.out + y.out : Int) : Rat) ≤ (z.out : Rat) + subaddErr monE (aF z.n) z.pw then none else some "subadditive"
 
 structure St where
   evs : List Ev := []
